@@ -179,7 +179,55 @@ def rule_plan_provenance(ck, facts):
             ck.bad(R, key, "%s: the layouts handed to the migration-plan builder mix the two programs (old side reads arguments %s, new side reads arguments %s; self = 1, new program = 2; new side: %s): a look-up keyed by the other program's function index picks the wrong function's layout as soon as the edit moves `dsp` in the function table, and the state of untouched voices is dropped or mis-migrated" % (f.short, bad[0], bad[1], bad[2]), f.where(tt))
 
 
+def rule_driver_provenance(ck, facts):
+    """what the VM runtime records about the incoming program before it replaces the machine"""
+    R = "C07.provenance"
+    cands = []
+    for cn in ("mimium_audiodriver",):
+        try:
+            fl = facts.crate(cn).fns
+        except KeyError:
+            continue
+        for f in fl:
+            if f.kind == "promoted" or "::test" in f.path:
+                continue
+            if any((callee(t) or "").endswith("vm::Machine::new_resume") for _, t in f.calls()):
+                cands.append(f)
+    ck.floor(R, "runtime_resume_sites", len(cands), 1)
+    for f in cands:
+        sx = SymEx(f, max_paths=64, max_steps=8000, facts=facts)
+        try:
+            paths = sx.run(0)
+        except PathLimit:
+            paths = sx.paths
+        bad = None
+        n = 0
+        for p in paths:
+            if p.end != "return":
+                continue
+            idx = [i for i, e in enumerate(p.events) if e[0] == "call" and e[1].endswith("vm::Machine::new_resume")]
+            if not idx:
+                continue
+            for e in p.events[:idx[0]]:
+                if e[0] != "store":
+                    continue
+                lhs = repr(e[1])
+                if "('arg', 1)" not in lhs:
+                    continue
+                n += 1
+                leaves = set()
+                _arg_leaves(e[2], leaves)
+                if leaves and leaves <= {1}:
+                    bad = (show(e[1])[:80], show(e[2])[:140])
+        key = "incoming|%s" % f.short.split("::")[-1]
+        if bad is None:
+            ck.ok(R, key, {"fn": f.short, "stores_before_the_machine_is_replaced": n})
+        else:
+            ck.bad(R, key, "%s records %s = %s before it replaces the machine: the value is computed from the program that is still running, not from the incoming one (e.g. the index of `dsp`). After an edit that moves `dsp` in the function table the runtime calls the wrong function as dsp" % (f.short, bad[0], bad[1]), f.where())
+
+
 def run(ck, facts, tier):
+    rule_driver_provenance(ck, facts)
     rule_send(ck, facts)
     rule_layout_carried(ck, facts)
     rule_zero_dst(ck, facts)
